@@ -36,3 +36,115 @@ func init() {
 	externals["math.archTrunc"] = f1(math.Trunc)
 	externals["math.Pow"] = func(fr *frame, args []value) value { return math.Pow(args[0].(float64), args[1].(float64)) }
 }
+
+// ---- tickers and runtime timers: intrinsic objects; firing is driven by the harness
+// (verif.FireTickers) - "a ticker may fire at any time" becomes an explicit harness choice.
+
+var tickerChans []*chanObj
+
+func init() {
+	resetHooks = append(resetHooks, func() { tickerChans = nil })
+	externals["time.NewTicker"] = func(fr *frame, args []value) value {
+		noteStub("time.NewTicker: intrinsic ticker fired only by verif.FireTickers")
+		timeT := fr.i.prog.ImportedPackage("time").Type("Time").Type()
+		c := newChan(1, timeT)
+		tickerChans = append(tickerChans, c)
+		var cell value = structure{c, true}
+		return &cell
+	}
+	externals["(*time.Ticker).Stop"] = func(fr *frame, args []value) value { return nil }
+	externals["(*time.Ticker).Reset"] = func(fr *frame, args []value) value { return nil }
+	externals[VerifPkg+".FireTickers"] = func(fr *frame, args []value) value {
+		timeT := fr.i.prog.ImportedPackage("time").Type("Time").Type()
+		for _, c := range tickerChans {
+			if Sched.canSend(c) && !c.closed {
+				Sched.doSend(c, zero(timeT))
+			}
+		}
+		return nil
+	}
+	externals["github.com/segmentio/ksuid.New"] = func(fr *frame, args []value) value {
+		noteStub("ksuid.New: fixed id")
+		a := make(array, 20)
+		for i := range a {
+			a[i] = uint8(i + 1)
+		}
+		return a
+	}
+	externals["(github.com/segmentio/ksuid.KSUID).String"] = func(fr *frame, args []value) value {
+		return "0ujsszwN8NRY24YaXiTIE2VWDTS"
+	}
+}
+
+// ---- time.AfterFunc / NewTimer: intrinsic one-shot timers. They never fire on their own;
+// verif.FireTimers runs the callback of every armed timer on its own goroutine ("a timer may
+// expire at any moment after it was set" becomes an explicit harness choice).
+
+type rtTimer struct {
+	fn    value // func() for AfterFunc; nil for channel timers
+	ch    *chanObj
+	armed bool
+}
+
+var rtTimers = map[*value]*rtTimer{}
+var rtTimerOrder []*value
+
+func init() {
+	resetHooks = append(resetHooks, func() { rtTimers = map[*value]*rtTimer{}; rtTimerOrder = nil })
+	newT := func(fr *frame, fn value, withChan bool) *value {
+		noteStub("time.AfterFunc/NewTimer: intrinsic timers fired only by verif.FireTimers")
+		var ch *chanObj
+		if withChan {
+			ch = newChan(1, fr.i.prog.ImportedPackage("time").Type("Time").Type())
+		}
+		var cell value = structure{ch, true}
+		p := &cell
+		rtTimers[p] = &rtTimer{fn: fn, ch: ch, armed: true}
+		rtTimerOrder = append(rtTimerOrder, p)
+		return p
+	}
+	externals["time.AfterFunc"] = func(fr *frame, args []value) value { return newT(fr, args[1], false) }
+	externals["time.NewTimer"] = func(fr *frame, args []value) value { return newT(fr, nil, true) }
+	externals["time.After"] = func(fr *frame, args []value) value {
+		p := newT(fr, nil, true)
+		return rtTimers[p].ch
+	}
+	externals["(*time.Timer).Stop"] = func(fr *frame, args []value) value {
+		t := rtTimers[args[0].(*value)]
+		if t == nil {
+			return false
+		}
+		was := t.armed
+		t.armed = false
+		return was
+	}
+	externals["(*time.Timer).Reset"] = func(fr *frame, args []value) value {
+		t := rtTimers[args[0].(*value)]
+		if t == nil {
+			return false
+		}
+		was := t.armed
+		t.armed = true
+		return was
+	}
+	externals[VerifPkg+".FireTimers"] = func(fr *frame, args []value) value {
+		n := 0
+		timeT := fr.i.prog.ImportedPackage("time").Type("Time").Type()
+		for _, p := range rtTimerOrder {
+			t := rtTimers[p]
+			if !t.armed {
+				continue
+			}
+			t.armed = false
+			n++
+			if t.fn != nil {
+				fn := t.fn
+				i := fr.i
+				Sched.spawn("timer", func() { call(i, nil, 0, fn, nil) })
+			} else if t.ch != nil && Sched.canSend(t.ch) {
+				Sched.doSend(t.ch, zero(timeT))
+			}
+		}
+		return n
+	}
+}
